@@ -37,6 +37,8 @@ structure A where
   w : List Nat := []                     -- the manager's current writable set (stale across idle rounds)
   pubT : List (Int × Nat) := []          -- client-type frames handled since the last TIMING tick
   pubR : List (Int × Nat) := []          -- … since the last TRAFFIC tick
+  recvT : List ((Nat × Int) × Nat) := []  -- manager-originated frames of type t seen by observer o since the last TIMING tick
+  recvR : List ((Nat × Int) × Nat) := []  -- … since the last TRAFFIC tick
   now : Nat := 0
   tTiming : Nat := 0
   tTraffic : Nat := 0
@@ -326,6 +328,19 @@ def segment (cfg : Cfg) (a : A) (rd : Read) (evs : List Ev) : A :=
     let a := if isMgrType cfg t then a else { a with pubT := ctrBump a.pubT t, pubR := ctrBump a.pubR t }
     applyDepartures (checkDepartures cfg a none evs) evs
 
+def bumpRecv (c : List ((Nat × Int) × Nat)) (k : Nat × Int) : List ((Nat × Int) × Nat) :=
+  if c.any (·.1 == k) then c.map (fun p => if p.1 == k then (p.1, p.2 + 1) else p) else c ++ [(k, 1)]
+
+/-- manager-originated frames (not copies of client frames, not the statistics themselves) written in `evs`: each one was
+    handled by `forward_message` outside the statistics context, so each observer's tally is a lower bound of the count -/
+def noteMgrFrames (cfg : Cfg) (a : A) (evs : List Ev) : A :=
+  (sends evs).foldl (fun a p =>
+    match p.2.2.body with
+    | .data _ | .ack | .timing .. | .traffic .. => a
+    | _ =>
+      let _ := cfg
+      { a with recvT := bumpRecv a.recvT (p.1, p.2.2.mtype), recvR := bumpRecv a.recvR (p.1, p.2.2.mtype) }) a
+
 /-! ### the periodic statistics (C18) -/
 
 def checkTiming (cfg : Cfg) (a : A) (evs : List Ev) : A :=
@@ -341,6 +356,12 @@ def checkTiming (cfg : Cfg) (a : A) (evs : List Ev) : A :=
       let a := cs.foldl (fun a e =>
           if isMgrType cfg e.1 || isControl cfg e.1 then a
           else a.chk (a.pubT.any (·.1 == e.1)) "C18" s!"TIMING_MESSAGE attributes {e.2} messages to type {e.1}, none was handled") a
+      -- the manager's own messages are handled for forwarding too: what one observer received is a lower bound
+      let a := a.recvT.foldl (fun a q =>
+          if 0 ≤ q.1.2 && q.1.2 < cfg.maxTypes && q.2 < 65536 then
+            let got := match cs.find? (·.1 == q.1.2) with | some e => e.2 | none => 0
+            a.chk (got ≥ q.2) "C18" s!"TIMING_MESSAGE reports {got} messages of type {q.1.2}, observer {q.1.1} alone received {q.2}"
+          else a) a
       -- process ids of connected modules with a non-zero id held by a single module
       a.mods.foldl (fun a m =>
         -- a module closed in the same stretch of events may have been dropped *by* the report's own delivery,
@@ -368,18 +389,23 @@ def checkTraffic (cfg : Cfg) (a : A) (evs : List Ev) : A :=
     let a := (a.pubR.filter (·.1 != -1)).foldl (fun a q =>       -- type -1 is the filler value of the message format
         let got := (entries.filter (·.1 == q.1)).map (·.2)
         a.chk (got == [q.2 % 65536]) "C18" s!"MESSAGE_TRAFFIC lists type {q.1} with counts {got}, {q.2} were handled") a
-    entries.foldl (fun a e =>
+    let a := entries.foldl (fun a e =>
         if isMgrType cfg e.1 || isControl cfg e.1 then a
-        else a.chk (a.pubR.any (·.1 == e.1)) "C18" s!"MESSAGE_TRAFFIC attributes {e.2} messages to type {e.1}, none was handled") a) a
+        else a.chk (a.pubR.any (·.1 == e.1)) "C18" s!"MESSAGE_TRAFFIC attributes {e.2} messages to type {e.1}, none was handled") a
+    a.recvR.foldl (fun a q =>
+        if q.2 < 65536 then
+          let got := ((entries.filter (·.1 == q.1.2)).map (·.2)).foldl (· + ·) 0
+          a.chk (got ≥ q.2) "C18" s!"MESSAGE_TRAFFIC reports {got} messages of type {q.1.2}, observer {q.1.1} alone received {q.2}"
+        else a) a) a
 
 /-- the part of a round after the last frame read: periodic messages -/
 def tail (cfg : Cfg) (a : A) (evs : List Ev) : A :=
   let tick1 := cfg.timing && a.now - a.tTiming > 900
   let a := if tick1 then checkTiming cfg a evs else a.chk (!(sends evs).any (fun p => match p.2.2.body with | .timing .. => true | _ => false)) "C18" "TIMING_MESSAGE sent before its period elapsed"
-  let a := if tick1 then { a with pubT := [], tTiming := a.now } else a
+  let a := if tick1 then { a with pubT := [], recvT := [], tTiming := a.now } else a
   let tick2 := a.now - a.tTraffic > 1000
   let a := if tick2 then checkTraffic cfg a evs else a
-  let a := if tick2 then { a with pubR := [], tTraffic := a.now, seq := a.seq + 1 } else a
+  let a := if tick2 then { a with pubR := [], recvR := [], tTraffic := a.now, seq := a.seq + 1 } else a
   let a := if a.now - a.tInfo > 5000 then { a with tInfo := a.now } else a
   a
 
@@ -417,6 +443,9 @@ def round (cfg : Cfg) (a : A) (r : Round) (evs : List Ev) : A :=
           | [] => a.err "C03" s!"the frame pending on live connection {rd.uid} was never read"
       | none => go a rest segs fuel
   let a := go a reads segs (reads.length + segs.length + 1)
+  -- tally the manager's own frames of every stretch but the last (the last one also holds the periodic section, whose
+  -- nested notices are sent inside the statistics context and are not counted)
+  let a := if segs.isEmpty then a else (pre :: (segs.dropLast.map (·.2))).foldl (noteMgrFrames cfg) a
   let lastEvs := match segs.getLast? with | some s => s.2 | none => pre
   tail cfg a lastEvs
 
